@@ -96,15 +96,15 @@ func (d Dump) Diff(o Dump) []string {
 
 // ValView is the decoded view of one validator record plus its signing info.
 type ValView struct {
-	Addr        sdk.Address
-	Key         int // key index or -1
-	Status      sdk.StakeStatus
-	Jailed      bool
-	Stake       sdk.Int
-	UnstakeAt   time.Time
-	HasInfo     bool
-	Info        posTypes.ValidatorSigningInfo
-	MissedBits  map[int64]bool // raw entries under 0x12 for this validator
+	Addr       sdk.Address
+	Key        int // key index or -1
+	Status     sdk.StakeStatus
+	Jailed     bool
+	Stake      sdk.Int
+	UnstakeAt  time.Time
+	HasInfo    bool
+	Info       posTypes.ValidatorSigningInfo
+	MissedBits map[int64]bool // raw entries under 0x12 for this validator
 }
 
 // View is the decoded state used by the oracles.
